@@ -224,7 +224,11 @@ class EstimateAgent(Agent):  # pylint: disable=too-many-public-methods
             init_p,
             nominal_filter,
             estimation_cfg.adaptive_filter,
-            estimation_cfg.initial_orbit_determination,
+            (
+                estimation_cfg.initial_orbit_determination
+                if estimation_cfg.sequential_filter.initial_orbit_determination
+                else None
+            ),
             tgt_cfg.platform.visual_cross_section,
             tgt_cfg.platform.mass,
             tgt_cfg.platform.reflectivity,
